@@ -1,6 +1,6 @@
 (* C07 — soft limit: when the eviction callback runs, with what, and the resulting bound. *)
 From Coq Require Import List Arith ZArith.
-From LK Require Import AList Model Inv StepInv PropLemmas.
+From LK Require Import AList Model Inv StepInv PropLemmas Evict.
 Import ListNotations.
 
 (* The only step that invokes the callback is the first critical section of a soft-limited lock call
@@ -50,6 +50,28 @@ Theorem C07_bound : forall c s a sh k n o s' ob,
   step c s (LResume a o) = ROk s' ob -> (forall l, ob <> OOffered l) ->
   length (s_ents s') <= Nat.max n (nonevictable s + 1).
 Proof. intros c s a sh k n o s' ob H. exact (enter_bound c s a sh k n o s' ob (reachable_inv c s H)). Qed.
+
+(* A round with a cooperative callback -- one that removes the value of every guard it is given, returns Ok
+   and thereby drops the guards -- lowers the number of evictable (unlocked, valued) entries by the number of
+   guards offered (>= 1), does not grow the map, and brings the call back to its eviction step ... *)
+Theorem C07_cooperative_round : forall c s a sh k n o s1 l o' s',
+  reachable c s -> aget a (s_ops s) = Some (PEnter sh k (Some n)) ->
+  step c s (LResume a o) = ROk s1 (OOffered l) ->
+  steps c s1 (map (fun g => LGuardOp g GRemove) (map ogid l) ++ [LCbReturn a CbOk true]
+              ++ repeat (LResume a o') (length l)) s' ->
+  evictable_n s' + length l = evictable_n s /\ 1 <= length l /\
+  length (s_ents s') <= length (s_ents s) /\
+  aget a (s_ops s') = Some (PEnter sh k (Some n)).
+Proof. intros c s a sh k n o s1 l o' s' H. exact (coop_round_progress c s a sh k n o s1 l o' s' (reachable_inv c s H)). Qed.
+
+(* ... so the eviction loop of a soft-limited call with a cooperative callback invokes the callback at most as
+   many times as there are evictable entries; when it then proceeds (C07_no_callback), C07_bound gives
+   "at most max(N, locked keys + 1) entries" with the requested key locked. *)
+Theorem C07_cooperative_loop_terminates : forall c a sh k n s m s'',
+  reachable c s -> aget a (s_ops s) = Some (PEnter sh k (Some n)) -> coop_rounds c a s m s'' ->
+  m + evictable_n s'' <= evictable_n s /\ length (s_ents s'') <= length (s_ents s) /\
+  aget a (s_ops s'') = Some (PEnter sh k (Some n)) /\ Inv s''.
+Proof. intros c a sh k n s m s'' H. exact (coop_rounds_bounded c a sh k n s m s'' (reachable_inv c s H)). Qed.
 
 (* non-vacuity: limit 2, two valued unlocked entries, a third key is locked: one entry is offered *)
 Example C07_witness :
